@@ -98,7 +98,7 @@ func Spec() *run.Spec {
 			"the reference of every comparison is polyform's own sequential counterpart run on the same input in the same case (that is what the property states); element identity for triangles and lines is additionally checked against the mesh's index list",
 			"callbacks and field functions are pure and record with atomics only, so every race report implicates polyform",
 			"schedules: only those the Go runtime produced in the repetitions made (GOMAXPROCS 2,4,8,16, seeded runtime.Gosched() inside callbacks and field functions); the evidence reports how many distinct visitation orders were seen",
-			"marched meshes are compared as multisets of triangles whose corners are identified by the weld cell of WeldByFloat3Attribute(…,3) (round(coordinate*1000)): the survivor of a weld cell depends on block order (a Go map) even in the sequential code, the cell does not; canvases holding only lattice fields are also compared coordinate-wise at 1e-9",
+			"marched meshes are compared as multisets of triangles whose corners are identified up to March's own welds (4 decimals in cell units across blocks, then 3 decimals in world units, first vertex wins over a Go-map block order even sequentially): corners of both meshes are clustered at Chebyshev distance 2.5e-3, triangles with two corners in one cluster are ignored on both sides; canvases holding only lattice fields at cutoff 0 are also compared coordinate-wise at 1e-9",
 			"a sequential March that panics with 'mesh without the attribute' (its behaviour on an empty surface) is taken as the empty triangle multiset",
 			"AddFieldParallel/AddFieldParallel2/MarchParallel size their pools from runtime.NumCPU() (" + strconv.Itoa(runtime.NumCPU()) + " here), not from an argument",
 			"topologies the scan does not support (line, quad) are outside the quantifier and not called",
